@@ -40,6 +40,10 @@ RewriteEv(e) ==
              ELSE Verdict(e.rid, "C12", "reject", <<"not-modified input but", e.status, "same text:", e.same_text>>)
         ELSE IF e.status = "modified" /\ e.has_trailer /\ e.has_hook /\ ~e.same_text THEN Verdict(e.rid, "C12", "ok", "modified")
              ELSE Verdict(e.rid, "C12", "reject", <<"modified input but", e.status, e.has_trailer, e.has_hook, e.same_text>>)
+     \* C16 at the package level: the package's answer is the fresh native answer for (configuration, text, file)
+     /\ IF e.threw \/ cls = "error" THEN TRUE
+        ELSE IF e.fresh_same THEN Verdict(e.rid, "C16", "ok", cls)
+        ELSE Verdict(e.rid, "C16", "reject", <<"the package's result differs from a fresh call in", e.fresh_diff, "after earlier calls on this rewriter">>)
      /\ cache' = CASE cls = "modified" -> (e.file :> e.version) @@ cache
                    [] cls = "notmodified" -> (e.file :> "none") @@ cache
                    [] OTHER -> cache
